@@ -141,7 +141,11 @@ func reflectStubs() map[string]StubFn {
 	m["github.com/cosmos72/gomacro/xreflect.ValueOf"] = valueOf(true)
 	m["reflect.TypeOf"] = func(c *CallCtx) {
 		i := c.args[0].(Iface)
-		c.Return(RType{T: i.T})
+		if i.T == nil {
+			c.Return(Iface{})
+			return
+		}
+		c.Return(Iface{T: rtypeImplType, V: RType{T: i.T}})
 	}
 	newOf := func(x bool) StubFn {
 		return func(c *CallCtx) {
